@@ -159,9 +159,13 @@ func (s *promiseStack) pop() *Promise {
 	return p
 }
 
+// popUntil pops the promises above p and discards the remaining alternatives of p.
+// p itself stays on the stack so that another cut in the same clause body still finds it.
 func (s *promiseStack) popUntil(p *Promise) {
 	for len(*s) > 0 {
 		if pop := s.pop(); pop == p {
+			p.delayed = nil
+			*s = append(*s, p)
 			break
 		}
 	}
